@@ -240,6 +240,8 @@ def run(ctx):
         add("proxy-to-client", ["reply2", "message"], 200)
         add("egress-to-server", ["reply2", "message"], 200)
         add("proxy-to-dialer", ["reply2", "message"], 250)
+        for _k in range(8 if not ctx.thorough() else 32):   # one per worker: association churn through the egress proxy
+            units.append({"id": len(units), "world": "egress-udp-churn", "m": table["reply2"][0]})
         add("datagram-to-transceiver", ["datagram"], 150)
         sev = run_socks(ctx, exe, wd, units, "socks")
         ctx.coverage["evaluations"] += sum(1 for e in sev if e["ev"] == "R")
